@@ -81,6 +81,10 @@ def _get_saved_where_filter(zdir: PathLike, query_name: str) -> Optional[str]:
             where_words.append(word)
 
     where_filter = " ".join(where_words)
+    if "|" in where_words:
+        # Keep the alternatives of this saved query together when its WHERE
+        # filter gets embedded into another (AND-ed) filter.
+        where_filter = f"({where_filter})"
     for sub_query_name in _get_saved_query_names(where_filter):
         sub_where_filter = _get_saved_where_filter(zdir, sub_query_name)
         if sub_where_filter is None:
